@@ -22,7 +22,7 @@ pub mod c20;
 use crate::util::Oracle;
 
 pub fn oracle_by_name(name: &str) -> Option<Oracle> {
-	let all: &[&[(&str, Oracle)]] = &[c01::ORACLES, c02::ORACLES, c04::ORACLES, c05::ORACLES, c06::ORACLES, c07::ORACLES, c08::ORACLES, c09::ORACLES, c10::ORACLES, c11::ORACLES, c14::ORACLES, c15::ORACLES, c16::ORACLES, c17::ORACLES, c18::ORACLES, c19::ORACLES, c20::ORACLES];
+	let all: &[&[(&str, Oracle)]] = &[c01::ORACLES, c02::ORACLES, c04::ORACLES, c05::ORACLES, c06::ORACLES, c07::ORACLES, c08::ORACLES, c09::ORACLES, c10::ORACLES, c11::ORACLES, c14::ORACLES, c15::ORACLES, c16::ORACLES, c17::ORACLES, c18::ORACLES, c19::ORACLES, c20::ORACLES, crate::ops::ORACLES];
 	for set in all {
 		for (n, f) in set.iter() {
 			if *n == name {
